@@ -10,7 +10,6 @@ MUTATIONS = {
     "c05-fast-path-trim": (["C05"], C, "[offset : len(location) - ((len(location) - offset) % 3)]", "[offset : len(location) - (len(location) % 3)]"),
     "c05-next-frame-shift": (["C05"], C, "            next_frame = next_frame.shift(rel_end - rel_start)", "            next_frame = next_frame.shift(rel_end - rel_start + 1)"),
     "c05-translate-start-rule": (["C05"], C, "            if i == 0 and codon.is_start_codon_in_specific_translation_table(translation_table):", "            if codon.is_start_codon_in_specific_translation_table(translation_table):"),
-    "c05-truncate-last": (["C05"], C, "            if truncate_at_in_frame_stop and codon.is_stop_codon and i != len(seq) - 3:", "            if truncate_at_in_frame_stop and codon.is_stop_codon and i != len(seq):"),
     "c05-has-valid-stop": (["C05"], C, "        c = Codon(seq[-3:].sequence.upper())", "        c = Codon(seq[:3].sequence.upper())"),
     "c05-in-frame-stop-slice": (["C05"], C, 'return "*" in str(self.translate()[:-1])', 'return "*" in str(self.translate())'),
     "c05-fivep-minus": (["C05"], C, "0, cleaned_location.parent_to_relative_pos(loc_on_chrom.end - 1), Strand.PLUS", "0, cleaned_location.parent_to_relative_pos(loc_on_chrom.start), Strand.PLUS"),
